@@ -342,8 +342,28 @@ Definition new_session_fresh (t : list tev) (c : N) : bool :=
                                              | _ => false end) t
                       | _ => true end) ins
   else true.
+(* C04 "after the application took ownership by calling ReadSlices again ... across restarts":
+   the ReadSlices call that follows the return of an exactly-once message (not a BigMessage, whose
+   payload flush may fail first) leaves the reception marker of that message in the Persistence,
+   whatever the call returns (also ErrClosed after Close); unless the Save of the marker failed
+   in that call (the documented BUG window) or the broker's PUBREL ended the cycle within it. *)
+Definition marker_event_in_call (t : list tev) (j x : N) : bool :=
+  existsb (fun e => match e with
+                    | TEv i (QSave k _) a => (i =? j) && (k =? x + 65536) && negb (match a with ADone => true | _ => false end)
+                    | TEv i (QDelete k) _ => (i =? j) && (k =? x + 65536)
+                    | _ => false end) t.
+Definition own_step (t : list tev) (s : option N) (m : list (N * list N)) (e : tev) : option N * bool :=
+  match e with
+  | TRet j OpRead r _ _ _ =>
+    let ok := match s with Some x => obs_has m (x + 65536) || marker_event_in_call t j x | None => true end in
+    (match r with
+     | RetMsg topic msg => match find_pub (upto_call j t) topic msg with Some (2, Some id) => Some id | _ => None end
+     | _ => None end, ok || ret_panicked r)
+  | TRet _ (OpAdopt _ _) (RetAdopt _ 0) _ _ _ => (None, true)
+  | _ => (s, true)
+  end.
 Definition c04_core (h : histcase) : bool :=
-  let t := trace_of h in c07_ok h && forallb (answered t) (conns t).
+  let t := trace_of h in c07_ok h && forallb (answered t) (conns t) && fold_trace (own_step t) None [] t.
 Definition c04_ok (h : histcase) : bool :=
   let t := trace_of h in c04_core h && forallb (new_session_fresh t) (conns t).
 Definition f25_match (h : histcase) : bool := c04_core h && negb (c04_ok h).
@@ -1029,7 +1049,12 @@ Definition rd_step (h : histcase) (t : list tev) (s : rd10) (m : list (N * list 
                     else true in
       (* going offline releases every request pending on that connection *)
       let released := if negb online && negb (rd_closed s) then match await with [] => true | _ => false end else true in
-      (mkRd (negb online) (rd_closed s) await nextr online, redial && released)
+      (* the failure is noticed: a ReadSlices error other than a Persistence error (the connection is
+         kept for those) leaves the client offline, so that the next call dials *)
+      let noticed := match r with
+                     | RetErr er => (er =? 0) || has_bit er 65536 || ret_panicked r || negb online
+                     | _ => true end in
+      (mkRd (negb online) (rd_closed s) await nextr online, redial && released && noticed)
     | OpReadBackoff er =>
       let wmin := s_wmin (cfg_of h) in let wmax := s_wmax (cfg_of h) in
       (s', match r with
@@ -1129,6 +1154,12 @@ Definition c11_gen (lenient_ping : bool) (h : histcase) : bool :=
   let t := trace_of h in
   no_panic t && c14_ok h && fold_trace (rq_step_gen lenient_ping t) (mkRq 0 []) [] t && settled_requests t.
 Definition c11_ok := c11_gen false.
+(* C13, no forged progress for requests: a Subscribe/Unsubscribe/Ping completes successfully only
+   through a well-formed response to it (a SUBACK with one return code per filter) *)
+Definition c13_full (h : histcase) : bool :=
+  let t := trace_of h in
+  c13_ok h && fold_trace (rq_step_gen true t) (mkRq 0 []) [] t.
+Definition c13_run_full := hist_run c13_full.
 (* F26: fails only by the own-PINGRESP rule *)
 Definition c11_run (l : list histcase) : list N * list N * list (N * N) :=
   (idx_filter hist_agree l 0, idx_filter c11_ok l 0, idx_known (c11_gen true) c11_ok l 0 26).
